@@ -113,6 +113,26 @@ CHECKS["C07"] = (
     "DESIGN.md §6 C07",
 )
 
+CHECKS["C18"] = (
+    "Lean 4 theorems over the decision logic of the three fix gates (violation attribute vectors: kind, ignore, warning, noqa-masked, "
+    "fixable): a file with any templating/parsing violation - suppressed or not - is never written by `fix` (path), is echoed unchanged "
+    "(stdin) and is returned unchanged by sqlfluff.fix, which never raises. The model is evaluated on the attribute vectors of the real "
+    "violations of generated files and compared with what the real CLI/API did; the property is also checked directly on the real behaviour. "
+    "One genuine defect in the API gate was repaired (fix: bff2607).",
+    "Lean 4 proof of decision logic + end-to-end differential correspondence through CliRunner and the Python API",
+    "Lean kernel; standard axioms; per-violation attributes and 'text would change' come from the real linter; loop-limit rollback not modelled here",
+    "DESIGN.md §6 C18",
+)
+CHECKS["C22"] = (
+    "Lean 4 theorems: `lint` exits 1 exactly when some violation is neither ignored, noqa-masked nor a warning; warnings never fail "
+    "lint or fix; --nofail exits 0; large_file_skip_fail with a skipped file exits 1; fix exit characterised when no TMP/PRS is present. "
+    "Model evaluated on the real violations' attribute vectors and compared with real `lint`/`fix` exit codes (path and stdin); usage "
+    "errors checked to exit 2. One genuine defect repaired (fix: 90e428d).",
+    "Lean 4 proof of decision logic + end-to-end differential correspondence through CliRunner",
+    "Lean kernel; standard axioms; interactive --check prompts not modelled",
+    "DESIGN.md §6 C22",
+)
+
 NOT_YET = {}
 
 
